@@ -1,7 +1,7 @@
 import sys, os, argparse, importlib, subprocess
 from . import engine
 
-PROPS = {'C01': 'xv.props.c01', 'C07': 'xv.props.c07', 'C03': 'xv.props.c03', 'C13': 'xv.props.c13', 'C09': 'xv.props.c09', 'C05': 'xv.props.c05', 'C04': 'xv.props.c04', 'C18': 'xv.props.c18', 'C15': 'xv.props.c15', 'C08': 'xv.props.c08', 'C02': 'xv.props.c02', 'C06': 'xv.props.c06', 'C17': 'xv.props.c17', 'C20': 'xv.props.c20', 'C12': 'xv.props.c12', 'C16': 'xv.props.c16', 'C19': 'xv.props.c19'}
+PROPS = {'C01': 'xv.props.c01', 'C07': 'xv.props.c07', 'C03': 'xv.props.c03', 'C13': 'xv.props.c13', 'C09': 'xv.props.c09', 'C05': 'xv.props.c05', 'C04': 'xv.props.c04', 'C18': 'xv.props.c18', 'C15': 'xv.props.c15', 'C08': 'xv.props.c08', 'C02': 'xv.props.c02', 'C06': 'xv.props.c06', 'C17': 'xv.props.c17', 'C20': 'xv.props.c20', 'C12': 'xv.props.c12', 'C16': 'xv.props.c16', 'C19': 'xv.props.c19', 'C14': 'xv.props.c14'}
 
 
 def main():
